@@ -1,6 +1,7 @@
 package vc
 
 import (
+	"regexp"
 	"encoding/json"
 	"fmt"
 	"go/types"
@@ -193,6 +194,7 @@ func LoadContracts(e *Engine, ld *Loaded, trustedDir string) ([]FuncTarget, []*L
 		seenDir[dir] = true
 		files, _ := filepath.Glob(filepath.Join(dir, "zz_verif_contracts*.go"))
 		for _, f := range files {
+			renameFields(e, sp.Pkg, f)
 			cf, err := ParseContractFile(f)
 			if err != nil {
 				return nil, nil, err
@@ -497,4 +499,68 @@ func PrintParamClauses(dir string, patterns []string) error {
 		}
 	}
 	return nil
+}
+
+// renameFields makes contracts robust to renamed struct fields: a line
+//   //@ fields semaState mu cond waiters
+// records the field names of a struct type at authoring time; a field that sits at
+// the same position under another name in the working tree (same number of fields, the
+// old name no longer used in the struct) is substituted in every clause of the file.
+// Done textually on the contract text before it is parsed (through ContractOverlay).
+func renameFields(e *Engine, pkg *types.Package, path string) {
+	data, ok := ContractOverlay[path]
+	if !ok {
+		b, err := os.ReadFile(path)
+		if err != nil {
+			return
+		}
+		data = b
+	}
+	lines := strings.Split(string(data), "\n")
+	ren := map[string]string{}
+	for _, l := range lines {
+		t := strings.TrimSpace(l)
+		if !strings.HasPrefix(t, "//@ fields ") {
+			continue
+		}
+		f := strings.Fields(t[len("//@ fields "):])
+		if len(f) < 2 {
+			continue
+		}
+		obj := pkg.Scope().Lookup(f[0])
+		if obj == nil {
+			continue
+		}
+		stt, ok := obj.Type().Underlying().(*types.Struct)
+		if !ok || stt.NumFields() != len(f)-1 {
+			continue
+		}
+		cur := map[string]bool{}
+		for i := 0; i < stt.NumFields(); i++ {
+			cur[stt.Field(i).Name()] = true
+		}
+		for i, old := range f[1:] {
+			if now := stt.Field(i).Name(); now != old && !cur[old] {
+				ren[old] = now
+				e.Notes["field "+f[0]+"."+old+" of the contracts in "+filepath.Base(path)+" is called "+now+" in the working tree (bound by position)"] = true
+			}
+		}
+	}
+	if len(ren) == 0 {
+		return
+	}
+	for i, l := range lines {
+		t := strings.TrimSpace(l)
+		if !strings.HasPrefix(t, "//@") || strings.HasPrefix(t, "//@ fields ") {
+			continue
+		}
+		for old, now := range ren {
+			l = regexp.MustCompile(`\.`+regexp.QuoteMeta(old)+`\b`).ReplaceAllString(l, "."+now)
+		}
+		lines[i] = l
+	}
+	if ContractOverlay == nil {
+		ContractOverlay = map[string][]byte{}
+	}
+	ContractOverlay[path] = []byte(strings.Join(lines, "\n"))
 }
